@@ -107,6 +107,8 @@ def job_conv(job):
         out = [str(sb.size)]
         size = sb.size
         idxs = list(range(-5, min(size, 400) + 6)) + ([size - 2, size - 1, size, size + 1, size + 5] if size > 400 else [])
+        if size > 100000:  # long window: probe the whole length, densest where single-precision seconds run out
+            idxs += sorted({(size * k) // 97 + j for k in range(1, 97) for j in (0, 1, 2)})
         for i in idxs:
             out.append(_call(sb.idxToDate, i))
             out.append(_call(sb.idxToDate, i, True))
